@@ -160,7 +160,9 @@ def tokenizeTemplatePath (path0 : Bytes) : List Token :=
   let path := trimSpaceGo path0
   let quoted (q : UInt8) := path.head? == some q && path.getLast? == some q
   if path.length ≥ 2 && (quoted 34 || quoted 39) then
-    [tk STRING ((path.drop 1).take (path.length - 2))]
+    let content := (path.drop 1).take (path.length - 2)
+    -- more than one literal ('a' ~ 'b') or an escaped quote: an expression
+    if content.contains (path.headD 0) then lexExpr path else [tk STRING content]
   else lexExpr path
 
 /-- `strings.Split(s, ",")` -/
